@@ -10,7 +10,12 @@ tie:     (i)   the implementation's package (value and JSON text) = package_new 
                package text and of validate / into_snapshot / from_snapshot_package on edited package
                values, model vs implementation (swap / drop / duplicate an order, edited numbers and
                tags, aliases, missing / duplicate / unknown fields, version and checksum edits, lying
-               aggregates, checksum recomputed over altered content).
+               aggregates, checksum recomputed over altered content, and the order ids RESPELLED
+               (jsn.id_spellings: non-canonical spellings the uuid / ulid crates accept — upper / mixed
+               case, simple / braced / urn uuids, lower-case ulids, 130-bit ulid aliases — which restore
+               the identical content because the checksum is taken over the re-serialized snapshot;
+               spellings of another id and near misses, which must be rejected); a python oracle of the
+               two formats says which is which and model and implementation must agree with it).
 judge (a search on the IMPLEMENTATION, not a proof): for generated level contents, every single-byte
          substitution (all 255 other byte values), deletion, insertion (a set of bytes) at every offset,
          every truncation point, sampled pairs of such faults and structural edits of the serialized
@@ -158,6 +163,15 @@ def package_mutants(rng, ast, model, n):
                 if ser.startswith("ok "):
                     a = set_key(with_snapshot(s2), "checksum", hashlib.sha256(unhx(ser[3:])).hexdigest())
                     out.append(("rehash:" + k, a))
+        elif r < 0.80 and jsn.id_nodes(snap):
+            # an order id respelled: same id (restores identically), another id or a near miss (rejected)
+            path, want = rng.choice(jsn.id_nodes(snap))
+            orig = jsn.get(snap, path)
+            sp = jsn.id_spellings(rng, orig)
+            if rng.random() < 0.4:      # the accepted spellings are the minority of the list: give them weight
+                sp = [x for x in sp if jsn.classify(orig, x[1], want) == "same"] or sp
+            kind, t = rng.choice(sp)
+            out.append(("id_spell_%s:%s" % (jsn.classify(orig, t, want), kind), with_snapshot(jsn.put(snap, path, t))))
         else:
             k, a = jsn.mutate(rng, ast)
             if rng.random() < 0.2:
@@ -196,6 +210,8 @@ def run(tier, seed, replay=None):
     pair_tot = dict(mutants=0, rejected=0, accepted=0, panics=0)
     ast_tot = dict(mutants=0, rejected=0, accepted_same=0, accepted_rehash=0)
     kinds_seen = {}
+    spell_tot = dict(same=0, other=0, reject=0)
+    spell_kinds = set()
     sizes = []
     samples = []
 
@@ -369,6 +385,13 @@ def run(tier, seed, replay=None):
                 ast_tot["mutants"] += 1
                 if x != y:
                     ver_bad.append(dict(text_hex=hx(t), text=t[:500], implementation=x, model=y, mutation=k, profile=prof))
+                elif k.startswith("id_spell_"):
+                    spell_tot[k.split(":")[0][9:]] += 1
+                    spell_kinds.add(k.split(":")[1])
+                    if (x == base_ans) != k.startswith("id_spell_same") or (x != "err") != k.startswith("id_spell_same"):
+                        ver_bad.append(dict(text_hex=hx(t), text=t[:500], implementation=x, model=y, mutation=k, profile=prof,
+                                            why="model and implementation agree with each other but not with the python oracle of the "
+                                                "uuid / ulid formats (same id: restores identically; other id / near miss: rejected)"))
                 if x == "err":
                     ast_tot["rejected"] += 1
                 elif k.startswith("rehash"):
@@ -439,6 +462,7 @@ def run(tier, seed, replay=None):
     ck.cov["traces_validated_against_impl"] = evals
     ck.extra["input_distribution"] = dict(levels=n_levels * len(profiles), text_bytes_min_max=[min(sizes or [0]), max(sizes or [0])],
                                           single_faults=scan_tot, pairs=pair_tot, structural=ast_tot, structural_kinds=kinds_seen,
+                                          id_spellings=dict(spell_tot, kinds=len(spell_kinds)),
                                           profiles=profiles, sha256_calls_for_model=model.digests)
     if not replay:
         ck.oblige("correspondence (i): package value and JSON text = package_new / text_of_package of the model", not pkg_bad,
@@ -447,6 +471,12 @@ def run(tier, seed, replay=None):
                   "%d disagreements" % len(pay_bad))
         ck.oblige("correspondence (iii): restore verdicts and contents agree on structural mutants and edited package values", not ver_bad,
                   "%d disagreements" % len(ver_bad))
+        ck.oblige("correspondence (iii, id spellings): packages whose order ids are respelled — %d same-id spellings restore identically, "
+                  "%d other-id and %d near-miss spellings are rejected, by model, implementation and the python oracle alike (%d kinds)"
+                  % (spell_tot["same"], spell_tot["other"], spell_tot["reject"], len(spell_kinds)),
+                  not [d for d in ver_bad if str(d.get("mutation", "")).startswith("id_spell")] and min(spell_tot.values()) > 0
+                  and len(spell_kinds) >= 40,
+                  "%s, %d kinds" % (spell_tot, len(spell_kinds)))
     ck.oblige("judge: every fault is rejected or restores exactly the snapshotted content (implementation)", not viol,
               "%d failures" % len(viol))
 
